@@ -5,7 +5,7 @@
 import sys, os, subprocess, shutil, json, tempfile, re
 sys.path.insert(0, "/verif")
 prop, n, src = sys.argv[1], sys.argv[2], sys.argv[3]
-sid = "%s-%s" % (prop, n)
+sid = "%s-%s" % (prop, sys.argv[4] if len(sys.argv) > 4 else n)
 out = "/verif/seeded/" + sid
 tmp = tempfile.mkdtemp(prefix="seedeval-")
 wd = os.path.join(tmp, "repo")
